@@ -2,22 +2,24 @@ package props
 
 import "testing"
 
-func TestC13(t *testing.T)     { RunProp(t, propC13) }
-func TestC01(t *testing.T)     { RunProp(t, propC01) }
-func TestC10(t *testing.T)     { RunProp(t, propC10) }
-func TestC05(t *testing.T)     { RunProp(t, propC05) }
-func TestC19(t *testing.T)     { RunProp(t, propC19) }
-func TestC02(t *testing.T)     { RunProp(t, propC02) }
-func TestC16(t *testing.T)     { RunProp(t, propC16) }
-func TestC17(t *testing.T)     { RunProp(t, propC17) }
-func TestC11(t *testing.T)     { RunProp(t, propC11) }
-func TestC14(t *testing.T)     { RunProp(t, propC14) }
-func TestC14Enum(t *testing.T) { RunEnum(t, propC14) }
-func TestC15(t *testing.T)     { RunProp(t, propC15) }
-func TestC12(t *testing.T)     { RunProp(t, propC12) }
-func TestC12Enum(t *testing.T) { RunEnum(t, propC12) }
-func TestC07(t *testing.T)     { RunProp(t, propC07) }
-func TestC07Sub(t *testing.T)  { RunProp(t, propC07Sub) }
-func TestC08(t *testing.T)     { RunProp(t, propC08) }
-func TestC08Sub(t *testing.T)  { RunProp(t, propC08Sub) }
-func TestC09RT(t *testing.T)   { RunProp(t, propC09RT) }
+func TestC13(t *testing.T)        { RunProp(t, propC13) }
+func TestC01(t *testing.T)        { RunProp(t, propC01) }
+func TestC10(t *testing.T)        { RunProp(t, propC10) }
+func TestC05(t *testing.T)        { RunProp(t, propC05) }
+func TestC19(t *testing.T)        { RunProp(t, propC19) }
+func TestC02(t *testing.T)        { RunProp(t, propC02) }
+func TestC16(t *testing.T)        { RunProp(t, propC16) }
+func TestC17(t *testing.T)        { RunProp(t, propC17) }
+func TestC11(t *testing.T)        { RunProp(t, propC11) }
+func TestC14(t *testing.T)        { RunProp(t, propC14) }
+func TestC14Enum(t *testing.T)    { RunEnum(t, propC14) }
+func TestC15(t *testing.T)        { RunProp(t, propC15) }
+func TestC12(t *testing.T)        { RunProp(t, propC12) }
+func TestC12Enum(t *testing.T)    { RunEnum(t, propC12) }
+func TestC07(t *testing.T)        { RunProp(t, propC07) }
+func TestC07Sub(t *testing.T)     { RunProp(t, propC07Sub) }
+func TestC08(t *testing.T)        { RunProp(t, propC08) }
+func TestC08Sub(t *testing.T)     { RunProp(t, propC08Sub) }
+func TestC09RT(t *testing.T)      { RunProp(t, propC09RT) }
+func TestC04(t *testing.T)        { RunProp(t, propC04) }
+func TestC04Cleanup(t *testing.T) { RunProp(t, propC04Cleanup) }
